@@ -10,7 +10,7 @@ VARIABLES cid, verdict
 vars == <<cid, verdict>>
 Init == cid \in 1..Len(Cases) /\ verdict = <<>>
 EditOf(e) == <<e.op, e.pos, e.sym>>
-\* c: g, start, dna, vt, indel, heap (0 = unrestricted), w (<<>> when the input is not an edited walk), es (list of [op, pos, sym]),
+\* c: g, start, dna, vt, indel, heap (-1 = unrestricted), w (<<>> when the input is not an edited walk), es (list of [op, pos, sym]),
 \*    out, cands, det, flag, count, visited, ticks, shape (the call returned a (list of strings, 4-tuple) pair)
 \* kind "pm": one recorded path_matching call: c.chunk, c.prev, c.occ, c.indel, c.records = list of [kind, pos, nt, s], c.visited
 JudgePm(c) ==
@@ -25,7 +25,7 @@ JudgeRepair(c) ==
       walk == IsWalk(live, N, c.start, c.dna)
       es == [i \in 1..Len(c.es) |-> EditOf(c.es[i])]
       edited == c.w # <<>> /\ es # <<>> /\ IsWalk(live, N, c.start, c.w) /\ Admissible(c.w, es, k) /\ ApplyAll(c.w, es) = c.dna
-                /\ c.heap = 0 /\ (c.indel \/ \A i \in 1..Len(es) : es[i][1] = "S")
+                /\ c.heap = -1 /\ (c.indel \/ \A i \in 1..Len(es) : es[i][1] = "S")
       spec == RepairOp(live, N, k, c.dna, c.start, c.vt, c.indel, c.heap)
   IN IF n < k THEN <<"precondition-false">>
      ELSE IF c.out = "budget" THEN <<"termination-bound">>
